@@ -565,8 +565,9 @@ void fp12_back_cyc(fp12_t c, const fp12_t a) {
 		fp2_dbl(t1, a[1][0]);
 		fp2_dbl(t1, t1);
 		fp2_copy_sec(t1, a[0][2], f);
-		/* If unity, decompress to unity as well. */
-		f = fp12_cmp_dig(a, 1) == RLC_EQ;
+		/* If unity (all compressed coefficients are zero), decompress to unity. */
+		f = fp2_is_zero(a[1][0]) && fp2_is_zero(a[0][2]) &&
+				fp2_is_zero(a[0][1]) && fp2_is_zero(a[1][2]);
 		fp2_set_dig(t2, 1);
 		fp2_copy_sec(t1, t2, f);
 
@@ -650,8 +651,9 @@ void fp12_back_cyc_sim(fp12_t c[], const fp12_t a[], int n) {
 			fp2_dbl(t1[i], a[i][1][0]);
 			fp2_dbl(t1[i], t1[i]);
 			fp2_copy_sec(t1[i], a[i][0][2], f);
-			/* If unity, decompress to unity as well. */
-			f = (fp12_cmp_dig(a[i], 1) == RLC_EQ);
+			/* If unity (all compressed coefficients are zero), decompress to unity. */
+			f = fp2_is_zero(a[i][1][0]) && fp2_is_zero(a[i][0][2]) &&
+					fp2_is_zero(a[i][0][1]) && fp2_is_zero(a[i][1][2]);
 			fp2_set_dig(t2[i], 1);
 			fp2_copy_sec(t1[i], t2[i], f);
 		}
@@ -1324,8 +1326,9 @@ void fp18_back_cyc(fp18_t c, const fp18_t a) {
 		fp3_dbl(t1, a[1][0]);
 		fp3_dbl(t1, t1);
 		fp3_copy_sec(t1, a[0][2], f);
-		/* If unity, decompress to unity as well. */
-		f = fp18_cmp_dig(a, 1) == RLC_EQ;
+		/* If unity (all compressed coefficients are zero), decompress to unity. */
+		f = fp3_is_zero(a[1][0]) && fp3_is_zero(a[0][2]) &&
+				fp3_is_zero(a[0][1]) && fp3_is_zero(a[1][2]);
 		fp3_set_dig(t2, 1);
 		fp3_copy_sec(t1, t2, f);
 
@@ -1409,8 +1412,9 @@ void fp18_back_cyc_sim(fp18_t c[], const fp18_t a[], int n) {
 			fp3_dbl(t1[i], a[i][1][0]);
 			fp3_dbl(t1[i], t1[i]);
 			fp3_copy_sec(t1[i], a[i][0][2], f);
-			/* If unity, decompress to unity as well. */
-			f = (fp18_cmp_dig(a[i], 1) == RLC_EQ);
+			/* If unity (all compressed coefficients are zero), decompress to unity. */
+			f = fp3_is_zero(a[i][1][0]) && fp3_is_zero(a[i][0][2]) &&
+					fp3_is_zero(a[i][0][1]) && fp3_is_zero(a[i][1][2]);
 			fp3_set_dig(t2[i], 1);
 			fp3_copy_sec(t1[i], t2[i], f);
 		}
@@ -1861,8 +1865,9 @@ void fp24_back_cyc(fp24_t c, const fp24_t a) {
 		fp4_dbl(t1, a[1][0]);
 		fp4_dbl(t1, t1);
 		fp4_copy_sec(t1, a[1][1], f);
-		/* If unity, decompress to unity as well. */
-		f = fp24_cmp_dig(a, 1) == RLC_EQ;
+		/* If unity (all compressed coefficients are zero), decompress to unity. */
+		f = fp4_is_zero(a[1][0]) && fp4_is_zero(a[1][1]) &&
+				fp4_is_zero(a[2][0]) && fp4_is_zero(a[2][1]);
 		fp4_set_dig(t2, 1);
 		fp4_copy_sec(t1, t2, f);
 
@@ -1945,8 +1950,9 @@ void fp24_back_cyc_sim(fp24_t c[], const fp24_t a[], int n) {
 			fp4_dbl(t1[i], a[i][1][0]);
 			fp4_dbl(t1[i], t1[i]);
 			fp4_copy_sec(t1[i], a[i][1][1], f);
-			/* If unity, decompress to unity as well. */
-			f = fp24_cmp_dig(a[i], 1) == RLC_EQ;
+			/* If unity (all compressed coefficients are zero), decompress to unity. */
+			f = fp4_is_zero(a[i][1][0]) && fp4_is_zero(a[i][1][1]) &&
+					fp4_is_zero(a[i][2][0]) && fp4_is_zero(a[i][2][1]);
 			fp4_set_dig(t2[i], 1);
 			fp4_copy_sec(t1[i], t2[i], f);
 		}
@@ -2397,8 +2403,9 @@ void fp48_back_cyc(fp48_t c, const fp48_t a) {
 		fp8_dbl(t1, a[1][0]);
 		fp8_dbl(t1, t1);
 		fp8_copy_sec(t1, a[0][2], f);
-		/* If unity, decompress to unity as well. */
-		f = fp48_cmp_dig(a, 1) == RLC_EQ;
+		/* If unity (all compressed coefficients are zero), decompress to unity. */
+		f = fp8_is_zero(a[1][0]) && fp8_is_zero(a[0][2]) &&
+				fp8_is_zero(a[0][1]) && fp8_is_zero(a[1][2]);
 		fp8_set_dig(t2, 1);
 		fp8_copy_sec(t1, t2, f);
 
@@ -2482,8 +2489,9 @@ void fp48_back_cyc_sim(fp48_t c[], const fp48_t a[], int n) {
 			fp8_dbl(t1[i], a[i][1][0]);
 			fp8_dbl(t1[i], t1[i]);
 			fp8_copy_sec(t1[i], a[i][0][2], f);
-			/* If unity, decompress to unity as well. */
-			f = fp48_cmp_dig(a[i], 1) == RLC_EQ;
+			/* If unity (all compressed coefficients are zero), decompress to unity. */
+			f = fp8_is_zero(a[i][1][0]) && fp8_is_zero(a[i][0][2]) &&
+					fp8_is_zero(a[i][0][1]) && fp8_is_zero(a[i][1][2]);
 			fp8_set_dig(t2[i], 1);
 			fp8_copy_sec(t1[i], t2[i], f);
 		}
@@ -2933,8 +2941,9 @@ void fp54_back_cyc(fp54_t c, const fp54_t a) {
 		fp9_dbl(t1, a[1][0]);
 		fp9_dbl(t1, t1);
 		fp9_copy_sec(t1, a[1][1], f);
-		/* If unity, decompress to unity as well. */
-		f = fp54_cmp_dig(a, 1) == RLC_EQ;
+		/* If unity (all compressed coefficients are zero), decompress to unity. */
+		f = fp9_is_zero(a[1][0]) && fp9_is_zero(a[1][1]) &&
+				fp9_is_zero(a[2][0]) && fp9_is_zero(a[2][1]);
 		fp9_set_dig(t2, 1);
 		fp9_copy_sec(t1, t2, f);
 
@@ -3020,8 +3029,9 @@ void fp54_back_cyc_sim(fp54_t c[], const fp54_t a[], int n) {
 			fp9_dbl(t1[i], a[i][1][0]);
 			fp9_dbl(t1[i], t1[i]);
 			fp9_copy_sec(t1[i], a[i][1][1], f);
-			/* If unity, decompress to unity as well. */
-			f = fp54_cmp_dig(a[i], 1) == RLC_EQ;
+			/* If unity (all compressed coefficients are zero), decompress to unity. */
+			f = fp9_is_zero(a[i][1][0]) && fp9_is_zero(a[i][1][1]) &&
+					fp9_is_zero(a[i][2][0]) && fp9_is_zero(a[i][2][1]);
 			fp9_set_dig(t2[i], 1);
 			fp9_copy_sec(t1[i], t2[i], f);
 		}
